@@ -455,6 +455,13 @@ func rowRequestVertexPipeline(ctx context.Context, prefix string,
 }
 
 func (t *TabularGraph) GetVertexChannel(ctx context.Context, req chan gdbi.ElementLookup, load bool) chan gdbi.ElementLookup {
+	return t.vertexChannel(ctx, req, load, false)
+}
+
+// vertexChannel answers the vertex lookups in request order. With passEmpty a
+// request without an id is not looked up but handed on as it is, in its place:
+// the "nothing found" answer of the outNull/inNull steps.
+func (t *TabularGraph) vertexChannel(ctx context.Context, req chan gdbi.ElementLookup, load bool, passEmpty bool) chan gdbi.ElementLookup {
 	out := make(chan gdbi.ElementLookup, 10)
 
 	prefixMap := map[string]int{}
@@ -475,7 +482,7 @@ func (t *TabularGraph) GetVertexChannel(ctx context.Context, req chan gdbi.Eleme
 	go func() {
 		var signalPipe *int
 		for r := range req {
-			if r.IsSignal() {
+			if r.IsSignal() || (passEmpty && r.ID == "") {
 				if signalPipe == nil {
 					in, out := copyPipeline()
 					x, _ := mux.AddPipeline(in, out)
@@ -509,7 +516,7 @@ func (t *TabularGraph) GetVertexChannel(ctx context.Context, req chan gdbi.Eleme
 func (t *TabularGraph) GetOutChannel(ctx context.Context, req chan gdbi.ElementLookup, load bool, emitNull bool, edgeLabels []string) chan gdbi.ElementLookup {
 
 	vReqs := make(chan gdbi.ElementLookup, 10)
-	out := t.GetVertexChannel(ctx, vReqs, load)
+	out := t.vertexChannel(ctx, vReqs, load, true)
 
 	go func() {
 		defer close(vReqs)
@@ -559,8 +566,7 @@ func (t *TabularGraph) GetOutChannel(ctx context.Context, req chan gdbi.ElementL
 				}
 				if emitNull {
 					if !found {
-						r.Vertex = nil
-						vReqs <- r
+						vReqs <- gdbi.ElementLookup{Ref: r.Ref}
 					}
 				}
 			}
@@ -571,7 +577,7 @@ func (t *TabularGraph) GetOutChannel(ctx context.Context, req chan gdbi.ElementL
 
 func (t *TabularGraph) GetInChannel(ctx context.Context, req chan gdbi.ElementLookup, load bool, emitNull bool, edgeLabels []string) chan gdbi.ElementLookup {
 	vReqs := make(chan gdbi.ElementLookup, 10)
-	out := t.GetVertexChannel(ctx, vReqs, load)
+	out := t.vertexChannel(ctx, vReqs, load, true)
 
 	go func() {
 		defer close(vReqs)
@@ -621,8 +627,7 @@ func (t *TabularGraph) GetInChannel(ctx context.Context, req chan gdbi.ElementLo
 				}
 				if emitNull {
 					if !found {
-						r.Vertex = nil
-						vReqs <- r
+						vReqs <- gdbi.ElementLookup{Ref: r.Ref}
 					}
 				}
 			}
